@@ -34,7 +34,7 @@ func init() {
 	register("C18", "R7 over the websocket handler and teardown.", r7(scSubTear), r6(scSubTear, 10))
 	register("C19", "R7 over upload parsing and re-encoding.", r7(scUpload), r6(scUpload, 10))
 	register("C15", "R7 over schema reconstruction.", r7(scIntrospect), r6(scIntrospect, 5))
-	register("C11", "", r6(scQueryer, 8), ruleAMR)
+	register("C11", "", r7(scQueryer), r6(scQueryer, 8), ruleAMR)
 	detectors := []ruleFn{ruleErrorsBeforeData("queryer.(*MultiOpQueryer).queryBatch", "pebbles.(*subscriptionEntry).prepareResponse"), ruleStatusCheck, ruleCountCheck, ruleNodeChecks}
 	register("C10", "", ruleGate, ruleOperationSelection, ruleCallers(nil), ruleGoSites, r6(scHTTP, 40), detectors[0])
 	register("C09", "", detectors...)
@@ -58,9 +58,18 @@ func init() {
 	register("C12", "", ruleMultiplicity, ruleDedup, ruleCallers(nil))
 	register("C06", "", ruleMultiplicity, ruleDedup)
 	register("C11", "", ruleMultiplicity, ruleReducers, ruleGoSites)
-	register("C13", "", ruleDedup)
+	register("C13", "", ruleDedup, ruleCacheKey)
+	register("C08", "", ruleLocks(plannerPkg+".CachedPlanner"))
+	register("C19", "", ruleMultiplicity, ruleUploadNumbering)
+	register("C12", "", ruleQueryHash)
+	for _, c := range []string{"C13", "C09", "C08", "C11"} {
+		register(c, "", ruleFanoutOwner)
+	}
+	register("C16", "", rulePlanImmutable)
+	register("C11", "", detectors[0])
 	register("C01", "", ruleDedup)
-	register("C05", "", ruleRoutingPairs)
+	register("C05", "", ruleRoutingPairs, ruleNodeFieldSignature)
+	register("C04", "", ruleNodeFieldSignature)
 	register("C05", "", ruleMergerGuards, ruleMapRanges(scMerger, 5))
 	register("C04", "", ruleRoutingPairs, ruleNodeFlag, ruleReducers, ruleCallers(func(c string) bool { return strings.Contains(c, "TypeURLMap") }))
 	register("C10", "", ruleErrStructure, ruleDownstreamErrorPath)
